@@ -176,7 +176,7 @@ theorem started_reset_run (c : Cfg) (ar aq : Nat) (s : S) (h : Inv c ar aq s) (h
     · exact Or.inr hp
     · -- [proxy7] at UpFilter nothing was sent yet
       have := (h.k15 hcl hupp).2.2.2.2.1
-      rw [hrst, hp.1] at this; cases this
+      rcases hp.1 with h1 | h1 <;> (rw [hrst, h1] at this; cases this)
   rcases hwhere2 with hp | hp
   · -- data phase
     by_cases hd : r.hasData = true
@@ -305,10 +305,8 @@ theorem trace_frozen (c : Cfg) (ar aq : Nat) (s : S) (l : Label) (h : Inv c ar a
       split
       · exact ⟨rfl, hcl⟩
       · split
+        · simp [upOnResetStream, hcl]
         · exact ⟨rfl, hcl⟩
-        · split
-          · simp [upOnResetStream, hcl]
-          · exact ⟨rfl, hcl⟩
   | poolFail f => exact ⟨rfl, hcl⟩
   | hostsGone => exact ⟨rfl, hcl⟩
   | perTryFire => simp [step, perTryFire, hpt, hcl]
@@ -319,16 +317,17 @@ theorem trace_frozen (c : Cfg) (ar aq : Nat) (s : S) (l : Label) (h : Inv c ar a
     · exact ⟨rfl, hcl⟩
     · exact ⟨rfl, hcl⟩
   | connClose => simp [step, connClose, hcl]
-  | terminate code => simp [step, terminateL_eq, parked, hrun, hcl]
+  | terminate code => simp [step, terminateL_eq, asleep, parked, backoff, hrun, hcl]
   | terminateStale g code =>
     simp only [step]
     rw [terminateStale_eq]
-    split <;> simp [terminateL_eq, parked, hrun, hcl]
+    split <;> simp [terminateL_eq, asleep, parked, backoff, hrun, hcl]
   | terminateRaced code k d t =>
     simp only [step]
     rw [terminateRaced_eq]
-    simp [terminateL_eq, parked, hrun, hcl]
+    simp [terminateL_eq, asleep, parked, backoff, hrun, hcl]
   | lateResp k d t => simp [step, lateBackoff, backoff, hrun, hcl]
+  | gtInSetup b => simp [step, gtInSetup, backoff, hrun, hcl]
 
 /-- the worker is parked and only an event can wake it: which events are still possible -/
 theorem blocked_facts (c : Cfg) (ar aq : Nat) (s : S) (h : Inv c ar aq s) (hb : blocked s = true) :
@@ -349,17 +348,29 @@ theorem blocked_facts (c : Cfg) (ar aq : Nat) (s : S) (h : Inv c ar aq s) (hb : 
       refine ⟨?_, ?_, ?_⟩
       · cases hh : s.urr with
         | false => rfl
-        | true => have := hwake (Or.inl hh); rw [hn] at this; cases this
+        | true =>
+          rcases hwake (Or.inl hh) with h1 | h1
+          · rw [hn] at h1; cases h1
+          · rw [hp] at h1; exact absurd h1.1 (by decide)
       · cases hh : s.upReset with
         | false => rfl
-        | true => have := hwake (Or.inr (Or.inl hh)); rw [hn] at this; cases this
+        | true =>
+          rcases hwake (Or.inr (Or.inl hh)) with h1 | h1
+          · rw [hn] at h1; cases h1
+          · rw [hp] at h1; exact absurd h1.1 (by decide)
       · cases hh : s.downReset with
         | false => rfl
-        | true => have := hwake (Or.inr (Or.inr hh)); rw [hn] at this; cases this
+        | true =>
+          rcases hwake (Or.inr (Or.inr hh)) with h1 | h1
+          · rw [hn] at h1; cases h1
+          · rw [hp] at h1; exact absurd h1.1 (by decide)
     have hge : s.globalExpired = false := by
       cases hh : s.globalExpired with
       | false => rfl
-      | true => have := hexp hh; rw [hnf.1] at this; cases this
+      | true =>
+        rcases hexp hh with h1 | h1
+        · rw [hnf.1] at h1; cases h1
+        · rw [hp] at h1; exact absurd h1 (by decide)
     have hrq : s.reqSent = true := by
       rcases hw hp with hh | hh
       · exact hh
@@ -378,7 +389,8 @@ def hijackState (c : Cfg) (g : S) (r : Reason) : S :=
 /-- first worker step after a global timeout fired on a parked worker: the reset is turned into a pending 504 reply -/
 theorem timeout_step1 (c : Cfg) (g : S) (hrun : g.running = true) (hp : g.phase = .WaitNotify) (hn : g.notify = true)
     (hcl : g.cleaned = false) (hur : g.upReset = true) (hrr : g.resetReason = .UpstreamGlobalTimeout)
-    (how : c.oneway = false) (hdr : g.downReset = false) (hrst : g.respStarted = false) (hps : g.pass = 0) :
+    (how : c.oneway = false) (hdr : g.downReset = false) (hrst : g.respStarted = false) (hps : g.pass = 0)
+    (hsr : g.setupRetry = false) :
     work c g = hijackState c { g with notify := false } .UpstreamGlobalTimeout := by
   unfold work
   rw [if_neg (by simp [hrun]), if_neg (by simp [bodyWait, hp])]
@@ -401,6 +413,7 @@ theorem timeout_step1 (c : Cfg) (g : S) (hrun : g.running = true) (hp : g.phase 
   unfold peTail
   rw [if_neg (by simp [sendHijack, orFlag, hdr]), if_pos (by simp [sendHijack])]
   simp only []
+  rw [abandonRetry_id (by simp [sendHijack, orFlag, hsr])]
   rw [if_neg (by simp [how]), if_pos (by simp [sendHijack, orFlag, hp])]
   rw [rsReset_retries_of_not_held c _ (by
     simpa [rsHeld, sendHijack, orFlag] using (cleanUp_facts c { g with notify := false }).2.1)]
@@ -502,7 +515,7 @@ theorem timeout_run (c : Cfg) (ar aq : Nat) (s : S) (h : Inv c ar aq s) (hb : bl
     subst eg
     simp [upOnResetStream, hrun, hp, hcl, hsr, hur, hdr, hrst, hps, hdir, hpd, hup, hrq]
   obtain ⟨g1, g2, g3, g4, g5, g6, g7, g8, g9, g10, g11, g12, g13, g14, g15⟩ := fg
-  rw [timeout_step1 c g g1 g2 g3 g4 g5 g6 how g7 g8 g9]
+  rw [timeout_step1 c g g1 g2 g3 g4 g5 g6 how g7 g8 g9 g10]
   generalize hh1 : hijackState c { g with notify := false } .UpstreamGlobalTimeout = h1
   have f1 : h1.running = true ∧ h1.phase = .UpFilter ∧ h1.cleaned = false ∧ h1.upReset = false ∧ h1.downReset = false ∧
       h1.direct = false ∧ h1.setupRetry = false ∧ h1.procDone = false ∧ h1.up.isSome = true ∧ h1.rs = none ∧
@@ -522,7 +535,7 @@ theorem timeout_run (c : Cfg) (ar aq : Nat) (s : S) (h : Inv c ar aq s) (hb : bl
 (its slot given back) and the worker re-enters at `UpFilter` -/
 theorem terminate_step1 (c : Cfg) (g : S) (hrun : g.running = true) (hp : g.phase = .WaitNotify) (hn : g.notify = true)
     (hcl : g.cleaned = false) (hur : g.upReset = false) (hdr : g.downReset = false) (hdir : g.direct = true)
-    (how : c.oneway = false) (hps : g.pass = 0) :
+    (how : c.oneway = false) (hps : g.pass = 0) (hsr : g.setupRetry = false) :
     work c g = { g with direct := false, rs := none, retries := (rsReset c g).retries, pass := 1, phase := .UpFilter,
                         notify := false } := by
   unfold work
@@ -537,6 +550,7 @@ theorem terminate_step1 (c : Cfg) (g : S) (hrun : g.running = true) (hp : g.phas
   unfold peTail
   rw [if_neg (by simp [hdr]), if_pos (by simp [hdir])]
   simp only []
+  rw [abandonRetry_id (by simp [hsr])]
   rw [if_neg (by simp [how]), if_pos (by simp [hp])]
   simp only [finishOf, reenter]
   simp [hps, loopBudget, rsReset]
@@ -565,7 +579,7 @@ theorem terminate_run (c : Cfg) (ar aq : Nat) (s : S) (code : Nat) (h : Inv c ar
         hTok := .loc, dTok := .none, tTok := .none } := by
     rw [terminateL_eq]
     unfold terminateAcc
-    rw [if_neg (by simp [parked, hrun, hp, hn]), if_neg (by simp [hnr]), if_neg (by simp [hcl]), if_neg (by simp [hurr])]
+    rw [if_neg (by simp [asleep, parked, hrun, hp, hn]), if_neg (by simp [hnr]), if_neg (by simp [hcl]), if_neg (by simp [hurr])]
   generalize hgdef : terminateL c s code = g at et ⊢
   have fg : g.running = true ∧ g.phase = .WaitNotify ∧ g.notify = true ∧ g.cleaned = false ∧ g.upReset = false ∧
       g.downReset = false ∧ g.direct = true ∧ g.pass = 0 ∧ g.setupRetry = false ∧ g.procDone = false ∧
@@ -574,7 +588,7 @@ theorem terminate_run (c : Cfg) (ar aq : Nat) (s : S) (code : Nat) (h : Inv c ar
     subst et
     simp [hrun, hp, hcl, hsr, hur, hdr, hps, hpd, hup, hrq]
   obtain ⟨g1, g2, g3, g4, g5, g6, g7, g8, g9, g10, g11, g12, g13, g14, g15, g16⟩ := fg
-  rw [terminate_step1 c g g1 g2 g3 g4 g5 g6 g7 how g8]
+  rw [terminate_step1 c g g1 g2 g3 g4 g5 g6 g7 how g8 g9]
   generalize hh1 : ({ g with
     direct := false, rs := none, retries := (rsReset c g).retries, pass := 1, phase := .UpFilter, notify := false } : S) = h1
   have f1 : h1.running = true ∧ h1.phase = .UpFilter ∧ h1.cleaned = false ∧ h1.upReset = false ∧ h1.downReset = false ∧
